@@ -149,6 +149,9 @@ def run(ctx):
     # merged entries: both halves in field order
     for imp, tn, kind in wi:
         pass
+    # compile-fail witnesses (type-level part of the property), discharged by rustc's type checker
+    from mq import witness as _w
+    _w.report_cf(ctx, "W15", _w.run_witness(), "C15")
     return EXPL
 
 
